@@ -8,8 +8,12 @@ import (
 	"unsafe"
 
 	"github.com/cloudwego/dynamicgo/conv"
+	"github.com/cloudwego/dynamicgo/conv/j2p"
 	"github.com/cloudwego/dynamicgo/conv/j2t"
+	"github.com/cloudwego/dynamicgo/conv/p2j"
 	"github.com/cloudwego/dynamicgo/conv/t2j"
+	dhttp "github.com/cloudwego/dynamicgo/http"
+	"github.com/cloudwego/dynamicgo/proto"
 	"github.com/cloudwego/dynamicgo/internal/simrt"
 	"github.com/cloudwego/dynamicgo/thrift"
 	"github.com/cloudwego/dynamicgo/thrift/generic"
@@ -30,6 +34,19 @@ type c12Shared struct {
 	t2jConv *t2j.BinaryConv
 	gopts   *generic.Options
 	lookups []string
+	// exception conversion (t2j ConvertException): response descriptor + a message whose exception field is set
+	respDesc *thrift.TypeDescriptor
+	excMsg   []byte
+	excConv  *t2j.BinaryConv
+	// http-mapping on an empty body: values come from the query string
+	httpConv *j2t.BinaryConv
+	httpURL  string
+	// protobuf converters on a shared descriptor
+	pdesc   *proto.TypeDescriptor
+	pbMsgs  [][]byte
+	pbJSONs [][]byte
+	p2jConv *p2j.BinaryConv
+	j2pConv *j2p.BinaryConv
 }
 
 type c12Op struct {
@@ -53,14 +70,20 @@ const (
 	opMarshalTo
 	opDescLookup
 	opInterface
+	opT2JException
+	opHTTPEmptyBody
+	opP2J
+	opJ2P
 	nC12Ops
 )
 
-var c12OpNames = [nC12Ops]string{"j2t.Do", "j2t.DoInto", "t2j.Do", "t2j.DoInto", "GetByPath", "Children", "Load+Marshal", "MarshalTo", "desc-lookups", "Interface"}
+var c12OpNames = [nC12Ops]string{"j2t.Do", "j2t.DoInto", "t2j.Do", "t2j.DoInto", "GetByPath", "Children", "Load+Marshal", "MarshalTo", "desc-lookups", "Interface", "t2j.Do(ConvertException)", "j2t.Do(http-mapping, empty body)", "p2j.Do", "j2p.Do"}
 
 type c12Result struct {
 	Out []byte
 	Err string
+	// Keep is the error VALUE returned by the library (its text must stay intact like any other result)
+	Keep error
 }
 
 func (r c12Result) equal(o c12Result) bool { return r.Err == o.Err && bytes.Equal(r.Out, o.Out) }
@@ -71,6 +94,9 @@ func (s *c12Shared) exec(op *c12Op) (res c12Result) {
 	ctx := context.Background()
 	defer func() {
 		if r := recover(); r != nil {
+			if _, ok := r.(simrt.StepLimitExceeded); ok {
+				panic(r) // a runaway loop is a violation of its own, not an operation outcome
+			}
 			res.Err = fmt.Sprintf("PANIC: %v", r)
 		}
 	}()
@@ -162,6 +188,35 @@ func (s *c12Shared) exec(op *c12Op) (res c12Result) {
 			}
 			res.Out = b
 		}
+	case opT2JException:
+		_, err := s.excConv.Do(ctx, s.respDesc, s.excMsg)
+		if err != nil {
+			res.Keep = err
+			res.Out = []byte(err.Error())
+		}
+	case opHTTPEmptyBody:
+		req, err := dhttp.NewHTTPRequestFromUrl("GET", s.httpURL, nil)
+		if err != nil {
+			res.Err = "request:" + err.Error()
+			break
+		}
+		out, err := s.httpConv.Do(context.WithValue(ctx, conv.CtxKeyHTTPRequest, req), s.desc, []byte{})
+		res.Out = out
+		seterr(err)
+	case opP2J:
+		if len(s.pbMsgs) == 0 {
+			break
+		}
+		out, err := s.p2jConv.Do(ctx, s.pdesc, input(s.pbMsgs[op.Doc%len(s.pbMsgs)]))
+		res.Out = out
+		seterr(err)
+	case opJ2P:
+		if len(s.pbJSONs) == 0 {
+			break
+		}
+		out, err := s.j2pConv.Do(ctx, s.pdesc, input(s.pbJSONs[op.Doc%len(s.pbJSONs)]))
+		res.Out = out
+		seterr(err)
 	case opInterface:
 		n := generic.NewNode(thrift.Type(s.rootT.Kind), input(s.msgs[op.Doc]))
 		x, err := n.Interface(s.gopts)
@@ -377,16 +432,44 @@ func sum64(b []byte) uint64 {
 
 func runC12(w *W) {
 	t := w.T
+	// a C12 world passes a few thousand yields; a call that does not terminate is a violation
+	w.World.StepLimit = 2000000
 	drawJ2TKnobs(w)
 	w.World.GCBudget = 2
 	drawFlavour(w)
 	so := tgenOpts{MaxStructs: 1 + t.Intn(3, "sch.structs"), MaxFields: 2 + t.Intn(6, "sch.fields"), MaxDepth: 1 + t.Intn(3, "sch.depth"),
 		BigIDs: t.Chance(1, 3, "sch.bigids"), Aliases: t.Chance(1, 3, "sch.alias"), Requiredness: t.Chance(1, 2, "sch.req"), Recursive: t.Chance(1, 4, "sch.rec"), Defaults: t.Chance(1, 3, "sch.defaults")}
+	so.QueryAnno = t.Chance(1, 2, "sch.queryanno")
 	sch := genSchema(t, so)
 	po := thrift.Options{UseDefaultValue: so.Defaults}
 	sh := &c12Shared{rootT: sch.Root}
-	sh.desc = parseThrift(w, sch, po)
+	var fn *thrift.FunctionDescriptor
+	sh.desc, fn = parseThriftFn(w, sch, po)
 	sh.desc2 = parseThrift(w, sch, po)
+	// exception message: response struct {1: SimExc{1: code, 2: msg}}
+	sh.respDesc = fn.Response()
+	emsg := vgenStr(t, 40)
+	sh.excMsg = append([]byte{tSTRUCT, 0, 1, tI32, 0, 1, 0, 0, 1, 0x90, tSTRING, 0, 2, 0, 0, 0, byte(len(emsg))}, emsg...)
+	sh.excMsg = append(sh.excMsg, 0, 0)
+	ec := t2j.NewBinaryConv(conv.Options{ConvertException: true})
+	sh.excConv = &ec
+	// http-mapping converter + a URL whose query populates the annotated fields
+	hc := j2t.NewBinaryConv(conv.Options{EnableHttpMapping: true, WriteDefaultField: t.Chance(1, 2, "opt.http.wd"), WriteRequireField: true})
+	sh.httpConv = &hc
+	sh.httpURL = "http://sim.local/p?x=1"
+	for _, st := range sch.Structs {
+		for _, f := range st.Fields {
+			if f.Query != "" {
+				v := "1"
+				if f.T.Kind == tBOOL {
+					v = "true"
+				} else if f.T.Kind == tSTRING {
+					v = "s" + f.Name
+				}
+				sh.httpURL += "&" + f.Query + "=" + v
+			}
+		}
+	}
 	copts := conv.Options{WriteDefaultField: t.Chance(1, 3, "opt.wd"), WriteRequireField: t.Chance(1, 2, "opt.wr"), DisallowUnknownField: t.Chance(1, 5, "opt.du"), NoBase64Binary: false}
 	jc := j2t.NewBinaryConv(copts)
 	tc := t2j.NewBinaryConv(copts)
@@ -416,6 +499,27 @@ func runC12(w *W) {
 	}
 	sh.lookups = append(sh.lookups, "", "nope", "unk_702", "fcc32")
 
+	// protobuf side: a shared descriptor, reference-encoded messages and their JSON (as produced by p2j itself)
+	if t.Chance(2, 3, "c12.proto") {
+		psch := genPSchema(t, pgenOpts{MaxMsgs: 1 + t.Intn(3, "psch.msgs"), MaxFields: 1 + t.Intn(6, "psch.fields"), Enums: t.Chance(1, 2, "psch.enums"), NoPackedFixed: true})
+		sh.pdesc = parseProto(w, psch)
+		pc := p2j.NewBinaryConv(conv.Options{})
+		jc := j2p.NewBinaryConv(conv.Options{})
+		sh.p2jConv, sh.j2pConv = &pc, &jc
+		for d := 0; d < ndocs; d++ {
+			mv, _ := genPMessage(t, psch, pvgenOpts{MaxElems: 1 + t.Intn(5, "pval.elems"), MaxStr: 1 + sizeClass(t, "pval.maxstr", 200), Depth: 1 + t.Intn(3, "pval.depth"), PresentPct: 70, KeyMaxInt63: true, NoNegZero: true})
+			pb := psch.refEncode(mv)
+			pbuf := w.AllocData(pb, simrt.PlaceReadOnly)
+			roBufs = append(roBufs, pbuf)
+			sh.pbMsgs = append(sh.pbMsgs, pbuf.B)
+			if js, err := pc.Do(context.Background(), sh.pdesc, pbuf.B); err == nil && len(js) > 0 {
+				jbuf := w.AllocData(js, simrt.PlaceReadOnly)
+				roBufs = append(roBufs, jbuf)
+				sh.pbJSONs = append(sh.pbJSONs, jbuf.B)
+			}
+		}
+	}
+
 	// programs
 	ntasks := 2 + t.Intn(3, "ntasks")
 	progs := make([][]*c12Op, ntasks)
@@ -425,7 +529,10 @@ func runC12(w *W) {
 			progs[i] = append(progs[i], drawC12Op(w, sh))
 		}
 	}
-	descHash := deepHash(sh.desc)
+	descHash := deepHash(sh.desc) ^ deepHash(sh.respDesc)*3
+	if sh.pdesc != nil {
+		descHash ^= deepHash(sh.pdesc) * 7
+	}
 	var inSums []uint64
 	for _, b := range roBufs {
 		inSums = append(inSums, sum64(b.B))
@@ -511,6 +618,9 @@ func runC12(w *W) {
 	}
 	for i := range inter {
 		for k := range inter[i] {
+			if inter[i][k].Keep != nil && inter[i][k].Keep.Error() != string(copies[i][k]) {
+				w.Failf("result-aliased", map[string]string{"op": c12OpNames[progs[i][k].Kind]}, "the text of the error returned by T%d.%d %s changed after later calls (it aliases pooled memory)\nwas: %s\nnow: %s", i, k, progs[i][k].Desc, clip(copies[i][k], 200), clip([]byte(inter[i][k].Keep.Error()), 200))
+			}
 			if !bytes.Equal(inter[i][k].Out, copies[i][k]) {
 				w.Failf("result-aliased", map[string]string{"op": c12OpNames[progs[i][k].Kind]}, "the result of T%d.%d %s changed after later calls (it aliases pooled memory)\nwas: %x\nnow: %x", i, k, progs[i][k].Desc, clipb(copies[i][k], 200), clipb(inter[i][k].Out, 200))
 			}
@@ -522,7 +632,11 @@ func runC12(w *W) {
 			w.Failf("input-modified", nil, "a shared input buffer was modified")
 		}
 	}
-	if deepHash(sh.desc) != descHash {
+	descHash2 := deepHash(sh.desc) ^ deepHash(sh.respDesc)*3
+	if sh.pdesc != nil {
+		descHash2 ^= deepHash(sh.pdesc) * 7
+	}
+	if descHash2 != descHash {
 		w.Failf("descriptor-modified", nil, "the shared type descriptor graph changed (deep hash differs)")
 	}
 	w.Sig(fmt.Sprintf("tasks%d/sw%d/pool%v", ntasks, w.World.SwitchDen, w.World.SwitchPool))
@@ -533,10 +647,19 @@ func drawC12Op(w *W, sh *c12Shared) *c12Op {
 	t := w.T
 	op := &c12Op{Kind: t.Intn(nC12Ops, "op.kind"), Doc: t.Intn(len(sh.jsons), "op.doc")}
 	in := sh.msgs[op.Doc]
-	if op.Kind == opJ2TDo || op.Kind == opJ2TDoInto {
+	switch op.Kind {
+	case opJ2TDo, opJ2TDoInto:
 		in = sh.jsons[op.Doc]
+	case opP2J:
+		if len(sh.pbMsgs) > 0 {
+			in = sh.pbMsgs[op.Doc%len(sh.pbMsgs)]
+		}
+	case opJ2P:
+		if len(sh.pbJSONs) > 0 {
+			in = sh.pbJSONs[op.Doc%len(sh.pbJSONs)]
+		}
 	}
-	if t.Chance(1, 5, "op.fail") && len(in) > 1 && op.Kind != opDescLookup {
+	if t.Chance(1, 5, "op.fail") && len(in) > 1 && op.Kind != opDescLookup && op.Kind != opT2JException && op.Kind != opHTTPEmptyBody {
 		op.Cut = 1 + t.Intn(len(in)-1, "op.cut")
 	}
 	op.Cap = pickInt(t, "op.cap", 0, 16, len(in), len(in)+7, 4096)
@@ -580,4 +703,14 @@ func drawC12Op(w *W, sh *c12Shared) *c12Op {
 		op.Desc = fmt.Sprintf("%s(doc %d, cut=%d, cap=%d, rec=%v)", c12OpNames[op.Kind], op.Doc, op.Cut, op.Cap, op.Rec)
 	}
 	return op
+}
+
+// vgenStr: a short plain string from the tape.
+func vgenStr(t *simrt.Tape, max int) []byte {
+	n := 1 + t.Intn(max, "str.n")
+	b := make([]byte, n)
+	for i := range b {
+		b[i] = fieldNameAlphabet[t.Intn(52, "str.c")]
+	}
+	return b
 }
